@@ -1,6 +1,7 @@
 (* C11 driver.  Cases (one S-expression per line) -> "ID result":
    (site ID IDX DELIMITED N)          -> ID cap=C ok=0/1 extent=E outcome=Complete|Rejected|Cut|Overrun kind=K
-   (depth ID "((v+v))")               -> ID Ok D | ID Err
+   (depth ID "((v+v))")               -> ID Ok D | ID Err      (nesting and token limits of the source)
+   (limit ID WHICH N)                 -> ID within | ID over
    (div ID (pool (SYMHEX PREC)...) EXPR) -> ID <value as in drv_C03> | ID E:<err>
    (period ID Q N START DATE)         -> ID Ok S | ID Err:<class>
    (readinto ID SIZE DELIMCODE HEX)   -> ID <hex of the bytes stored, NUL excluded>
@@ -45,7 +46,7 @@ let kind_name = function
   | StrncpyBounded _ -> "StrncpyBounded" | StrncpyUnguarded -> "StrncpyUnguarded" | Getline _ -> "Getline"
   | WriteAtMost _ -> "WriteAtMost" | WriteExactly _ -> "WriteExactly" | PtrLoopBounded _ -> "PtrLoopBounded"
   | PtrLoopUnbounded -> "PtrLoopUnbounded" | CopyGuarded (_, _) -> "CopyGuarded"
-  | IndexLoopUnbounded _ -> "IndexLoopUnbounded" | Unrecognised -> "Unrecognised"
+  | IndexLoopBounded (_, _) -> "IndexLoopBounded" | IndexLoopUnbounded _ -> "IndexLoopUnbounded" | Unrecognised -> "Unrecognised"
 
 let outcome_name = function
   | Complete -> "Complete" | Rejected -> "Rejected" | Cut -> "Cut" | Overrun -> "Overrun"
@@ -78,7 +79,7 @@ let handle line =
        (outcome_name (outcome_of cap w (batom delim) nn))
        (kind_name w)]
   | L [A "depth"; A id; A text] ->
-    (match parse_depth src_parse_depth_limit (toks_of text) with
+    (match parse_guarded src_parse_depth_limit src_expr_token_limit (toks_of text) with
      | Ok d -> [id ^ " Ok " ^ string_of_z d]
      | Err _ -> [id ^ " Err"])
   | L [A "div"; A id; L (A "pool" :: pool); e] ->
@@ -91,6 +92,12 @@ let handle line =
     let run ord = (match aeval ord cp ex with Ok v -> show_value v | Err e -> "E:" ^ err_name e) in
     let r1 = run false and r2 = run true in
     if r1 = r2 then [id ^ " " ^ r1] else [id ^ " ORDER-DEPENDENT " ^ r1 ^ " | " ^ r2]
+  | L [A "limit"; A id; A which; n] ->
+    let lim = (match which with
+        | "query-depth" -> src_query_depth_limit | "query-terms" -> src_query_term_limit
+        | "roundto-places" -> src_roundto_places_limit | "expr-depth" -> src_parse_depth_limit
+        | "expr-tokens" -> src_expr_token_limit | _ -> failwith "limit") in
+    [id ^ (if within_limit lim (zatom n) then " within" else " over")]
   | L [A "period"; A id; A q; n; start; date] ->
     (match period_start src_period_zero_guard (quantum_of q) (zatom n) (zatom start) (zatom date) with
      | Ok s -> [id ^ " Ok " ^ string_of_z s]
@@ -107,8 +114,9 @@ let handle line =
     let (stored, fail) = getline_store (zatom m) inp in
     [Printf.sprintf "%s stored=%d fail=%d" id (List.length stored) (if fail then 1 else 0)]
   | L [A "guards"; A id] ->
-    [Printf.sprintf "%s depth_limit=%s zero_guard=%d max_line=%s getline=%s nsites=%d" id
-       (match src_parse_depth_limit with None -> "none" | Some l -> string_of_z l)
+    let o = function None -> "none" | Some l -> string_of_z l in
+    [Printf.sprintf "%s depth_limit=%s token_limit=%s query_depth=%s query_terms=%s roundto_places=%s zero_guard=%d max_line=%s getline=%s nsites=%d" id
+       (o src_parse_depth_limit) (o src_expr_token_limit) (o src_query_depth_limit) (o src_query_term_limit) (o src_roundto_places_limit)
        (if src_period_zero_guard then 1 else 0) (string_of_z src_max_line) (string_of_z src_line_getline)
        (List.length site_table)]
   | _ -> failwith "case"
